@@ -341,6 +341,14 @@ class Model():
         for field_name in (left_field_name, right_field_name):
             field_assets = getattr(association, field_name)
 
+            for field_asset in field_assets:
+                if field_asset not in self.assets:
+                    raise ModelAssociationException(
+                        f'Asset "{field_asset.name}" in field '
+                        f'{association_type}.{field_name} is not part of '
+                        f'model "{self.name}".'
+                    )
+
             unique_field_asset_names = {a.name for a in field_assets}
             if len(field_assets) > len(unique_field_asset_names):
                 raise ModelAssociationException(
